@@ -146,6 +146,59 @@ func (c *Ctx) errflowFunc(f *ssa.Function, exc map[string]string) {
 				}
 			}
 		}
+		// R-ignored: the error is tested, but nothing on the failing side ever looks at it - every use
+		// of the error value sits where it is known to be nil (typically `if err == nil { return err }`,
+		// an inverted test) - and from the failing edge the function can still return without a freshly
+		// made error: a failure is carried on as if the call had succeeded.
+		if fei := errIndex(f.Signature); fei >= 0 && !consultsError(errVal) {
+			handled, applicable := false, true
+			var tests []*ssa.If
+			for _, u := range realRefs(errVal) {
+				if bo, ok := u.(*ssa.BinOp); ok && (bo.Op == token.EQL || bo.Op == token.NEQ) && (isNilConst(bo.X) || isNilConst(bo.Y)) {
+					direct := false
+					for _, r2 := range realRefs(bo) {
+						if iff, ok := r2.(*ssa.If); ok {
+							tests = append(tests, iff)
+							direct = true
+						}
+					}
+					if !direct {
+						applicable = false
+					}
+					continue
+				}
+				if _, isPhi := u.(*ssa.Phi); isPhi {
+					handled = true
+					continue
+				}
+				if classifyErr(f, errVal, u.Block(), 0) != errNil {
+					handled = true
+				}
+			}
+			if applicable && !handled && len(tests) > 0 {
+				leak := token.NoPos
+				found := false
+				for _, iff := range tests {
+					bo := iff.Cond.(*ssa.BinOp)
+					nn := iff.Block().Succs[0]
+					if bo.Op == token.EQL {
+						nn = iff.Block().Succs[1]
+					}
+					for blk := range reachableFrom(nn, nil) {
+						if len(blk.Instrs) == 0 {
+							continue
+						}
+						if r, ok := blk.Instrs[len(blk.Instrs)-1].(*ssa.Return); ok {
+							if classifyErr(f, retVal(r, fei), blk, 0) != errNonNil {
+								found, leak = true, r.Pos()
+							}
+						}
+					}
+				}
+				k := mk("R-ignored", cl)
+				report("E2.R-ignored", k, cl.Pos(), "", found, fmt.Sprintf("%s: the error of %s is tested, but it is only ever used where it is known to be nil, and after the failing side of the test the function can return at %s without a new error: the failure is ignored (inverted error test?)", fnName(f), shortQ(q), c.rel(leak)))
+			}
+		}
 		// R-tolerated: a pointer result used where the call's error may still be non-nil (the error
 		// test lets some errors through on purpose) and the pointer itself has not been tested: the
 		// callee returns a nil pointer together with the tolerated error.
